@@ -698,6 +698,7 @@ def run(ctx) -> None:
     ctx.step(_convert_tabulate, ctx)
     ctx.step(_local_env, ctx)
     from . import C07
+    ctx.step(C07._py_iso_tabulate, ctx)       # ... decided on values first (the table of strings has fractions of every length)
     ctx.step(C07._fraction, ctx, None)        # parse(tz=) returns exactly that wall time: the sub-second digits of the Python parsers
     bad = core.check_bases()
     if bad:
